@@ -16,6 +16,9 @@ EXPLANATION = (
     "poisoning, documented memory exhaustion, loop-bounded indices, debug assertions - because a panic inside an extern \"C\" trampoline "
     "aborts the host."
 )
+EXPLANATION += (  # round-3 supplement
+    ' K3 no unguarded unsigned subtraction in built-ins (canary). K4 = C15.M4: list accessors compute element addresses only after index < len held (boolean path simulation).'
+)
 ASSUMPTIONS = [
     "cranelift: sdiv/udiv/srem/urem trap on a zero divisor (and sdiv on MIN/-1)",
     "a panic cannot unwind through the extern \"C\" trampolines and aborts the process",
